@@ -564,6 +564,48 @@ def flow_entries():
                     "let a = opq7(x); let b = BoxTrait::new(17_u128); let c: felt252 = b.unbox().into(); "
                     "a + c",
                     lambda x: [(True, ok(vint((i_(x) * 7 + 17) % P)))], tags=("flow",)))
+    # early returns, loops with break values, for loops, or-patterns
+    def u8add(a, b, cases):
+        return cases
+
+    def chk_u8(e):
+        return [(z3.And(e >= 0, e <= 255), None)]
+    E.append(BEntry("flow_early_return", [("x", "u8"), ("y", "u8")], "u8",
+                    "if x > y { return x - y; } let z = y - x; if z == 3 { return 0; } z * 2",
+                    lambda x, y: [
+                        (i_(x) > i_(y), ok(vint(i_(x) - i_(y)))),
+                        (z3.And(i_(x) <= i_(y), i_(y) - i_(x) == 3), ok(vint(0))),
+                        (z3.And(i_(x) <= i_(y), i_(y) - i_(x) != 3, (i_(y) - i_(x)) * 2 <= 255),
+                         ok(vint((i_(y) - i_(x)) * 2))),
+                        (z3.And(i_(x) <= i_(y), i_(y) - i_(x) != 3, (i_(y) - i_(x)) * 2 > 255),
+                         panic(short("u8_mul Overflow")))], tags=("flow",)))
+    E.append(BEntry("flow_loop_break", [("s", "felt252")], "felt252",
+                    "let mut acc = s; let mut i: felt252 = 0; loop { if i == 3 { break acc * 2; } "
+                    "acc = acc + i; i = i + 1; }",
+                    lambda s: [(True, ok(vint(((i_(s) + 3) * 2) % P)))], tags=("flow",)))
+    E.append(BEntry("flow_for_range", [("s", "felt252")], "felt252",
+                    "let mut acc = s; for i in 0..3_u8 { acc = acc * 2 + i.into(); } acc",
+                    lambda s: [(True, ok(vint((i_(s) * 8 + 4) % P)))], tags=("flow",)))
+    E.append(BEntry("flow_or_pattern", [("t", "Three")], "felt252",
+                    "match t { Three::A(_) | Three::C => 1, Three::B((a, b)) => a.into() * 100 + "
+                    "b.into() }",
+                    lambda t: [(True, ok(vint(1 if t[1] in (0, 2) else
+                                              i_(t[3][1][1][0]) * 100 + i_(t[3][1][1][1]))))],
+                    tags=("flow",),
+                    items="#[derive(Copy, Drop)]\nenum Three { A: u8, B: (u16, u16), C }\n"))
+    E.append(BEntry("flow_return_in_match", [("o", "Option<u8>"), ("d", "u8")], "u8",
+                    "let v = match o { Some(v) => v, None => { return d; } }; if v == d { return 7; } "
+                    "v",
+                    lambda o, d: [(True, ok(d))] if o[1] == 1 else
+                    [(i_(o[3][0]) == i_(d), ok(vint(7))), (i_(o[3][0]) != i_(d), ok(o[3][0]))],
+                    tags=("flow",)))
+    E.append(BEntry("flow_tuple_swap_loop", [("a", "felt252"), ("b", "felt252")],
+                    "(felt252, felt252)",
+                    "let mut p = (a, b); let mut i: u8 = 0; while i != 3 { let (x, y) = p; "
+                    "p = (y, x + y); i += 1; } p",
+                    lambda a, b: [(True, ok(vtuple(vint((i_(a) + 2 * i_(b)) % P),
+                                                   vint((2 * i_(a) + 3 * i_(b)) % P))))],
+                    tags=("flow",)))
     E.append(BEntry("flow_match_update", [("o", "Option<u8>"), ("s", "felt252")],
                     "(felt252, felt252)",
                     "let mut x = In2 { m: s, n: 1 }; match o { Some(v) => { x.m = v.into(); }, "
